@@ -10,14 +10,13 @@ use std::marker::PhantomData;
 
 use proptest::prelude::*;
 use serde::{Deserialize, Serialize};
-use vf_core::{catch, ensure, CheckResult, Fail, Obs, Run, SubCheck, Tier, X};
+use vf_core::{catch, ensure, CheckResult, Fail, Obs, Run, SubCheck, Tier};
 use vf_ref::coin::RefCoin;
 use vf_ref::hashes::Dg;
 use vf_repo::prelude::*;
 use winter_crypto::hashers::{Blake3_192, Blake3_256, Rp62_248, Rp64_256, RpJive64_256, Sha3_256};
 use winter_crypto::{DefaultRandomCoin, RandomCoin, RandomCoinError};
 use winter_math::FieldElement;
-use winter_utils::{Deserializable, Serializable};
 
 use crate::ha::{digest_from_words, pkey, HA};
 
@@ -251,7 +250,7 @@ fn op_strategy<B: FA>(small_counts: bool) -> BoxedStrategy<Op> {
         8 => ints,
         1 => bad,
         8 => prop_oneof![prop::sample::select(crate::c11::int_classes()), any::<u64>(), 0u64..64].prop_map(Op::Pow),
-        2 => (0u8..=if small_counts { 3 } else { 10 }).prop_map(Op::Grind),
+        2 => (0u8..=if small_counts { 3 } else { 8 }).prop_map(Op::Grind),
     ]
     .boxed()
 }
@@ -268,7 +267,7 @@ impl<B: FA, H: HA<B> + Sync> SubCheck for History<B, H> {
         60
     }
     fn rule(&self) -> String {
-        "seed of 0..20 elements (C07's operand sources: boundary residues, non-canonical internal values, uniform) and 1..30 operations from {reseed(digest), draw base / quadratic / cubic, draw_integers(count 1..255 < domain 2^1..2^32, nonce from u64 classes), documented-panic requests (count >= domain, domain not a power of two), check_leading_zeros(v), the grinding loop (first nonce 0,1,2,.. whose measure reaches a factor 0..10; 0..3 for the Rescue coins)}; two real coins (given representation / canonical rebuild) and the reference coin step by step; then up to four minimally different histories (seed element +1, reseed digest one bit / one element +1, nonce +1, one extra base draw right before the observed draws) whose next four base draws must differ; non-trivial = at least one reseed and two different draw kinds; distinct by case".into()
+        "seed of 0..20 elements (C07's operand sources: boundary residues, non-canonical internal values, uniform) and 1..30 operations from {reseed(digest), draw base / quadratic / cubic, draw_integers(count 1..255 < domain 2^1..2^32, nonce from u64 classes), documented-panic requests (count >= domain, domain not a power of two), check_leading_zeros(v), the grinding loop (first nonce 0,1,2,.. whose measure reaches a factor 0..8; 0..3 for the Rescue coins)}; two real coins (given representation / canonical rebuild) and the reference coin step by step; then up to four minimally different histories (seed element +1, reseed digest one bit / one element +1, nonce +1, one extra base draw right before the observed draws) whose next four base draws must differ; non-trivial = at least one reseed and two different draw kinds; distinct by case".into()
     }
     fn required_labels(&self, _t: Tier) -> Vec<String> {
         vec!["variant=seed-element".into(), "variant=reseed-data".into(), "variant=nonce".into(), "variant=extra-draw".into(), "seed-len=0".into()]
@@ -434,19 +433,16 @@ pub fn run(run: &mut Run) {
             return;
         }
     }
-    run.sub(&h::<B62, Blake3_256<B62>>(false, 30_000, 700_000));
-    run.sub(&h::<B64, Blake3_256<B64>>(false, 30_000, 700_000));
-    run.sub(&h::<B128, Blake3_256<B128>>(false, 30_000, 700_000));
-    run.sub(&h::<B62, Blake3_192<B62>>(false, 30_000, 700_000));
-    run.sub(&h::<B64, Blake3_192<B64>>(false, 30_000, 700_000));
-    run.sub(&h::<B128, Blake3_192<B128>>(false, 30_000, 700_000));
-    run.sub(&h::<B62, Sha3_256<B62>>(false, 30_000, 700_000));
-    run.sub(&h::<B64, Sha3_256<B64>>(false, 30_000, 700_000));
-    run.sub(&h::<B128, Sha3_256<B128>>(false, 30_000, 700_000));
-    run.sub(&h::<B64, Rp64_256>(true, 6_000, 120_000));
-    run.sub(&h::<B64, RpJive64_256>(true, 6_000, 120_000));
-    run.sub(&h::<B62, Rp62_248>(true, 2_500, 50_000));
+    run.sub(&h::<B62, Blake3_256<B62>>(false, 24_000, 400_000));
+    run.sub(&h::<B64, Blake3_256<B64>>(false, 24_000, 400_000));
+    run.sub(&h::<B128, Blake3_256<B128>>(false, 24_000, 400_000));
+    run.sub(&h::<B62, Blake3_192<B62>>(false, 24_000, 400_000));
+    run.sub(&h::<B64, Blake3_192<B64>>(false, 24_000, 400_000));
+    run.sub(&h::<B128, Blake3_192<B128>>(false, 24_000, 400_000));
+    run.sub(&h::<B62, Sha3_256<B62>>(false, 24_000, 400_000));
+    run.sub(&h::<B64, Sha3_256<B64>>(false, 24_000, 400_000));
+    run.sub(&h::<B128, Sha3_256<B128>>(false, 24_000, 400_000));
+    run.sub(&h::<B64, Rp64_256>(true, 5_000, 80_000));
+    run.sub(&h::<B64, RpJive64_256>(true, 5_000, 80_000));
+    run.sub(&h::<B62, Rp62_248>(true, 2_000, 30_000));
 }
-
-#[allow(dead_code)]
-fn _x(_: X) {}
